@@ -52,7 +52,8 @@ fn xor(a: &[u8], b: &[u8]) -> Vec<u8> {
 /// how the ciphertext is pushed through the decryptor
 #[derive(Clone, Debug)]
 enum DecPath {
-    Blocks,
+    /// block-level decryptor driven through a generated composition of calls (incl. backend-level schedules)
+    Blocks(Vec<Piece>),
     OneShot,
     /// buffered CFB decryptor fed in the given pieces
     Buffered(Vec<usize>),
@@ -67,10 +68,13 @@ fn dec_all(suite: &Suite, f: &dyn BlockModeFactory, key: &[u8], iv: &[u8], ct: &
             ensure!(res.is_ok(), format!("C15/async-rejected/{}", f.type_name()), "equal lengths rejected");
             Ok(o)
         }
-        DecPath::Blocks => {
+        DecPath::Blocks(pieces) => {
             let mut obj = f.make(Ctor::New, key, iv).expect("harness: ctor");
             let whole = ct.len() - ct.len() % unit;
-            Ok(run_simple(obj.as_mut(), &ct[..whole]))
+            if pieces.is_empty() {
+                return Ok(run_simple(obj.as_mut(), &ct[..whole]));
+            }
+            Ok(run_pieces(obj.as_mut(), unit, &ct[..whole], pieces, (3, 0x15)).map_err(|v| with_sig("C15", &f.type_name(), v))?.out)
         }
         DecPath::Buffered(cuts) => {
             let mut b = suite.buf(Direction::Dec).unwrap().make(Ctor::New, key, iv).expect("harness: ctor");
@@ -132,15 +136,18 @@ fn dec_propagation(ctx: &Ctx, t: &mut Tape<'_>, r: &mut Report) -> CheckResult {
     // CFB has three decrypting front-ends: block level, one-shot, buffered (fed in generated pieces)
     let psel = t.byte();
     let cuts = gen_cuts(t, ct.len(), bs, 5);
+    // (read last so that older tapes keep their meaning) how the block-level decryptor is called
+    let pieces = if t.chance(160) { gen_pieces(t, n, 4, suite.info.par) } else { Vec::new() };
+    r.label_if(pieces.len() > 1, "block-path-in-several-calls");
     let path = if mode != Mode::Cfb {
-        DecPath::Blocks
+        DecPath::Blocks(pieces)
     } else if psel < 100 {
         r.label("cfb-buffered");
         DecPath::Buffered(cuts)
     } else if tail > 0 || psel < 180 {
         DecPath::OneShot
     } else {
-        DecPath::Blocks
+        DecPath::Blocks(pieces)
     };
     r.d(|| format!("path={path:?}"));
     let (p1, p2) = (dec_all(suite, f, &key, &iv, &ct, bs, &path)?, dec_all(suite, f, &key, &iv, &ct2, bs, &path)?);
